@@ -14,6 +14,8 @@ impl<'a> Parser<'a> {
         let mut block = vec![];
 
         loop {
+            #[cfg(feature = "verif-hooks")]
+            crate::verif_hooks::tick();
             match self.peek() {
                 TokenKind::LParen
                 | TokenKind::Bits
@@ -188,6 +190,8 @@ impl<'a> Parser<'a> {
         let row_start = self.peek_span().start;
 
         loop {
+            #[cfg(feature = "verif-hooks")]
+            crate::verif_hooks::tick();
             match self.peek() {
                 TokenKind::LParen => {
                     self.skip();
